@@ -265,6 +265,10 @@ func vlEvmCreate(key *ecdsa.PrivateKey, nonce uint64, initCode []byte) *types.Tr
 	return vlEvmSign(key, ethtypes.NewContractCreation(nonce, big.NewInt(0), vlGasLimit, vlGwei(vlGasPrice), initCode))
 }
 
+func vlEvmCreateP(key *ecdsa.PrivateKey, nonce uint64, initCode []byte, gasPrice uint64) *types.Transaction {
+	return vlEvmSign(key, ethtypes.NewContractCreation(nonce, big.NewInt(0), vlGasLimit, vlGwei(gasPrice), initCode))
+}
+
 func vlEvmCall(key *ecdsa.PrivateKey, nonce uint64, to ethcom.Address, data []byte) *types.Transaction {
 	return vlEvmSign(key, ethtypes.NewTransaction(nonce, to, big.NewInt(0), vlGasLimit, vlGwei(vlGasPrice), data))
 }
